@@ -191,6 +191,29 @@ Definition stops_at_attr (h : heap) (scope : path) (e : bexpr) : bool :=
   match gresolve h scope e with Found _ (KAttr _) => true | _ => false end.
 
 (* ------------------------------------------------------------------------------------------------
+   Python's nested evaluation, stated on its own: an assigned name denotes its value WHEREVER it stands in the
+   chain, and that value was computed by itself when the assignment ran -- evaluating it starts afresh (empty stack
+   of aliases being resolved).  Import aliases are guarded against cycles as in [fin]; a cyclic assignment has no
+   denotation (the fuel runs out: RFuel).  fuel (2 + #objects)^2 is enough whenever Griffe's loop finds something.
+   ------------------------------------------------------------------------------------------------ *)
+Fixpoint pyfin (fuel : nat) (h : heap) (seen : list path) (p : path) : rres :=
+  match fuel with
+  | 0 => RFuel
+  | S f =>
+      match find_obj h p with
+      | None => RKey
+      | Some (KAlias tgt) => if memp p seen then RCyc else walk (pyfin f h (p :: seen)) [] tgt
+      | Some (KAttr e) => walk (pyfin f h []) [] (canon h (removelast p) e)
+      | Some k => Found p k
+      end
+  end.
+Definition py_fuel (h : heap) : nat := (2 + List.length h) * (2 + List.length h).
+Definition py_lookup (fuel : nat) (h : heap) (p : path) : rres := walk (pyfin fuel h []) [] p.
+Definition pyresolve (h : heap) (scope : path) (e : bexpr) : rres := py_lookup (py_fuel h) h (canon h scope e).
+Definition pybase (h : heap) (scope : path) (e : bexpr) : option nat :=
+  match pyresolve h scope e with Found _ (KCls i) => Some i | _ => None end.
+
+(* ------------------------------------------------------------------------------------------------
    Programs: a heap and the class statements; externals are classes Python knows and the collection does not
    ------------------------------------------------------------------------------------------------ *)
 Record xcls := mkX { xpath : path; xscope : path; xbases : list bexpr; xmembers : list string;
@@ -279,6 +302,13 @@ Definition ext_last_only (t : tbl) (x c : nat) : bool :=
   forallb (fun d => last_only x (cbases (nth_cls t d))) (seq 0 (S c)) &&
   forallb (fun d => match cpython_mro t d with Ok m => last_only x m | _ => true end) (seq 0 c).
 Definition ext_not_last (t : tbl) (x c : nat) : bool := negb (ext_last_only t x c).
+
+(* several classes the collection does not hold, hidden one after the other (each last-only in the table left by the
+   previous ones: `class C(A, Generic[T], ABC)` is fine hiding ABC first) *)
+Fixpoint hide_all (xs : list nat) (t : tbl) : tbl := match xs with [] => t | x :: r => hide_all r (hide x t) end.
+Fixpoint drop_all (xs : list nat) (l : list nat) : list nat := match xs with [] => l | x :: r => drop_all r (drop x l) end.
+Fixpoint ext_last_only_all (t : tbl) (xs : list nat) (c : nat) : bool :=
+  match xs with [] => true | x :: r => ext_last_only t x c && ext_last_only_all (hide x t) r c end.
 
 (* ------------------------------------------------------------------------------------------------
    Inherited aliases whose target member is itself an alias (an import inside the class body)
@@ -392,7 +422,16 @@ Definition run_class (g : prog) (c : nat) : sexp :=
     (* 11: Griffe's own claim for comparison with 6 is exact when nothing was dropped here *)
     of_bool (match pbases_of g x with
              | Some bs => if list_eq_dec Nat.eq_dec bs (cbases (nth_cls gt c)) then true else false
-             | None => false end)
+             | None => false end);
+    (* 12: the hypothesis of C07_hidden_all holds for this class: the external classes, in the order given or reversed,
+       are last-only one after the other (explicit `object` bases left out: the harness looks at those) *)
+    of_bool (let pt' := hide (obj_index g) pt in
+             let xs := seq n (List.length (pext g)) in
+             ext_last_only_all pt' xs c || ext_last_only_all pt' (rev xs) c);
+    (* 13: Python's bases by the nested evaluation [pyresolve] (must equal 3) *)
+    of_opt enc_list (match map_opt (pybase (full_heap g) (xscope x)) (xbases x) with
+                     | Some bs => Some (mro_entries (is_ext g) (combine (xbases x) bs))
+                     | None => None end)
   ].
 
 Definition run_C07b (s : sexp) : sexp :=
